@@ -776,6 +776,8 @@ def gen_graph_cases(ctx):
     # structured random graphs with rich options
     for name, n, es, w in graphs.suite(rng, 70 if quick else 700, 2, 10):
         wts = [rng.choice([1, 2, 3, 0.5, 8]) for _ in es]
+        if rng.random() < 0.12:      # a signed graph
+            wts = [rng.choice([1, -1, 2, -0.5]) for _ in es]
         if all((j, i) in set(es) for i, j in es) and rng.random() < 0.8:   # else: symmetric structure, asymmetric weights
             sw = {}
             wts = [sw.setdefault((min(i, j), max(i, j)), rng.choice([1, 2, 0.5])) for i, j in es]
